@@ -40,12 +40,14 @@ def number_keys(rng, ks, ds=(-2, -1, 0, 1, 2), rich=True):
                 if -2 ** 63 <= n < 2 ** 63:
                     out.append(f"I{n}")
                     if rich:
+                        out.append(f"Q0:{n}")          # the plain Go `int`
                         for w, lim in (("8", 7), ("16", 15), ("32", 31)):
                             if -2 ** lim <= n < 2 ** lim:
                                 out.append(f"Q{w}:{n}")
                 if 0 <= n < 2 ** 64:
                     out.append(f"U{n}")
                     if rich:
+                        out.append(f"V0:{n}")          # the plain Go `uint`
                         for w in ("8", "16", "32"):
                             if n < 2 ** int(w):
                                 out.append(f"V{w}:{n}")
@@ -224,7 +226,10 @@ ALPHABET = ["I1", "D3ff0000000000000", "T", "L1", "S61", "B61", "Y61", "t( I1 S6
 NESTED = ["t( I1 t( S61 ) )", "t( I1 t( B61 ) )", "t( I1 t( Y61 ) )", "R( S61 )", "R( B61 )", "R( Y61 )",
           "c( C6d.6e S61 )", "c( C6d.6e B61 )", "c( C6d.6e Y61 )", "R( t( S61 ) )", "R( t( Y61 ) )", "R( t( B61 ) )",
           # one Python value in two Go representations: the empty tuple as a non-nil and as a nil slice; zero as int64 and as *big.Int
-          "t( )", "t0", "R( t( ) )", "R( t0 )", "t( t0 I1 )", "t( t( ) L1 )", "R( I0 )", "R( L0 )"]
+          "t( )", "t0", "R( t( ) )", "R( t0 )", "t( t0 I1 )", "t( t( ) L1 )", "R( I0 )", "R( L0 )",
+          # a bool inside a tuple / struct-typed key against the equal int / float / long at the same place; Go's plain int and uint
+          "t( T S61 )", "t( F )", "t( I0 )", "t( D0000000000000000 )", "R( T )", "R( I1 )", "R( D3ff0000000000000 )", "t( t( T ) )", "t( t( L1 ) )",
+          "c( C6d.6e T )", "c( C6d.6e I1 )", "V0:1", "Q0:1", "t( V0:1 S61 )", "V0:0", "t( V0:7 )", "t( I7 )"]
 
 
 def ref_history(ops):
